@@ -30,6 +30,9 @@ func init() {
 
 func runC17(c *core.Ctx) {
 	c17NoForward(c)
+	if sp := c.P.Pkg("task/backend/scheduler"); sp != nil {
+		c17Handoff(c, sp)
+	}
 	c.Rule("C17.less", "A8: Item.Less is irreflexive, asymmetric and equals the lexicographic order (when ascending, then id ascending) over all 9 orderings of the two keys")
 	c.Rule("C17.index", "A3: wherever an item is put into the queue (ReplaceOrInsert) the index entry nextTime[item.id] is stored on the same path with the item's own `when`; wherever an item is deleted by key the key's `when` is the indexed value of that id; release removes both")
 	c.Rule("C17.iter", "A1: the dispatch iterator: occurrence+offset after now ⇒ stop without sending; sent ⇒ recorded in toDelete, then updateNext ok ⇒ recorded in toInsert, error ⇒ onErr and no re-insert; worker busy ⇒ nothing recorded; the send sits in a select with a default (never blocks under the lock)")
